@@ -62,7 +62,7 @@ def judge(case, reals, gens, specs):
     if reals[0][0] == "childq":
         ok_c, why = core.judge_childq(reals[0])
         return [] if ok_c else [("violation", 0, why)]
-    if case.tags.get("kind") == "after-other-calls":
+    if case.tags.get("kind") in ("after-other-calls", "after-calls-on-another-object"):
         from ..runner import default_judge
         return default_judge(None, case, reals, gens, specs)      # (only the final scd line: judge_from)
     r, g, s = reals[0], gens[0], specs[0]
